@@ -138,6 +138,10 @@ pub fn judge(c: &Cluster, ids: &[u128]) -> Option<(String, String)> {
     let prims: Vec<usize> = live.iter().cloned().filter(|i| roles[*i].as_deref() == Some("Primary")).collect();
     let oldest = *live.iter().min_by_key(|i| ids[**i]).unwrap();
     let detail = format!("roles {:?} views {:?} process ids {:?}", roles, views, ids);
+    // whatever the election ended with: one node's own member list never names two primaries
+    if live.iter().any(|i| views[*i].as_deref() == Some("many")) {
+        return Some(("a-member-list-names-more-than-one-primary".into(), detail));
+    }
     if prims.len() > 1 {
         return Some(("more-than-one-primary".into(), detail));
     }
